@@ -900,6 +900,9 @@ type verifC16Ledger struct {
 	anySettled bool
 	payFailed  bool
 	last       int // last reported status in this epoch (0: none yet)
+	// dupAdmitted: an attempt id that was still recorded was admitted
+	// again in this epoch.
+	dupAdmitted bool
 }
 
 func (l *verifC16Ledger) reset() { *l = verifC16Ledger{} }
@@ -1005,9 +1008,18 @@ func (r *verifC16Run) ledgerOp(si int, op *verifC16Op, res verifC16Res) {
 			r.violation("attempt_after_fail", name,
 				name+": new attempt admitted after the payment was failed")
 		}
+		dupAdmitted := l.latest(id) != nil
 		l.atts = append(l.atts, &verifC16LAtt{id: id, amt: op.Att.Amt})
+		l.dupAdmitted = l.dupAdmitted || dupAdmitted
 		if live := l.live(); live > l.value {
-			r.violation("conservation", name+":admitted",
+			// The key names the known defect shape (KV store, a
+			// duplicate attempt id was admitted before) exactly;
+			// everything else gets a different key.
+			key := r.mode + ":" + name + ":admitted-sum"
+			if r.mode == "dupid" && si == 0 && l.dupAdmitted {
+				key = "kv:admitted-after-duplicate-id"
+			}
+			r.violation("conservation", key,
 				fmt.Sprintf("%s: settled+in-flight admitted attempt "+
 					"amounts %d exceed the payment value %d", name, live,
 					l.value))
@@ -1073,7 +1085,7 @@ func (r *verifC16Run) ledgerReport(si, h int, p *verifC16Proj, afterGlobalDelete
 		}
 	}
 	if sent > p.Value {
-		r.violation("conservation", name+":record",
+		r.violation("conservation", r.mode+":"+name+":record-sum",
 			fmt.Sprintf("%s: recorded settled+in-flight %d exceed value %d",
 				name, sent, p.Value))
 	}
@@ -1167,6 +1179,10 @@ func (r *verifC16Run) step(op *verifC16Op) {
 		if op.K == "reg" {
 			r.nAdmit++
 			vc.Count("admitted", 1)
+			if mp := m.P[op.H]; mp.Exists && mp.sent() == mp.Value {
+				// the attempt completed the payment amount exactly
+				vc.Count("admitted_completing", 1)
+			}
 		}
 		if op.K == "init" {
 			vc.Count("init_ok", 1)
@@ -1531,6 +1547,14 @@ func (r *verifC16Run) epilogue() {
 	r.step(&verifC16Op{K: "inflight"})
 }
 
+// verifC16SetCase records the running case index (so that violations and
+// replay files name it) without pre-logging the cheap case.
+func verifC16SetCase(vc *verifCtx, i int) {
+	vc.mu.Lock()
+	vc.curCase = i
+	vc.mu.Unlock()
+}
+
 func verifC16Hashes(r *verifRng) [verifC16NHash]lntypes.Hash {
 	var hs [verifC16NHash]lntypes.Hash
 	for i := range hs {
@@ -1578,6 +1602,7 @@ func TestVerifC16Seq(t *testing.T) {
 			vc.Case(i, map[string]any{"nops": nops, "batch": batch})
 		} else {
 			vc.Count("cases", 1)
+			verifC16SetCase(vc, i)
 		}
 		run := &verifC16Run{vc: vc, st: st, idx: i, mode: "core",
 			tokens: map[string]struct{}{},
@@ -1653,6 +1678,7 @@ func TestVerifC16DupID(t *testing.T) {
 			vc.Case(i, map[string]any{"mode": "dupid"})
 		} else {
 			vc.Count("cases", 1)
+			verifC16SetCase(vc, i)
 		}
 		verifC16DupCase(vc, st, rng, i)
 		// Every case leaves undeletable state behind only on divergence;
@@ -1685,6 +1711,14 @@ func verifC16DupCase(vc *verifCtx, st *verifC16Stores, rng *verifRng, idx int) {
 		amtY = v - amtX
 	}
 	amtZ := v - amtY
+	if mid == 1 {
+		// The KV store shows the re-registered attempt as already
+		// failed, so anything up to the full value fits on top.
+		amtZ = v - amtY + 1 + rng.U64n(amtY)
+		if amtZ > v {
+			amtZ = v
+		}
+	}
 	if amtZ == 0 {
 		amtZ = 1
 	}
@@ -1731,10 +1765,20 @@ func verifC16DupCase(vc *verifCtx, st *verifC16Stores, rng *verifRng, idx int) {
 		run.ledgerOp(1, op, qres)
 		if !diverged && kres.OK != qres.OK {
 			diverged = true
-			vc.Violation("dup_attempt_id",
-				fmt.Sprintf("%s:first=%s:kv=%s:sql=%s", op.K,
-					[]string{"inflight", "failed"}[mid%2], kres.short(),
-					qres.short()),
+			first := []string{"inflight", "failed"}[mid%2]
+			// Known defect shape: the id is still recorded for the
+			// payment, the KV store admits the re-registration and
+			// the SQL store refuses it. Any other disagreement gets
+			// a key outside that family.
+			key := fmt.Sprintf("unexpected:%s:first=%s:kv=%s:sql=%s", op.K,
+				first, kres.short(), qres.short())
+			if op.K == "reg" && op.Slot == 0 && len(run.ops) > 2 &&
+				kres.OK && !qres.OK {
+
+				key = fmt.Sprintf("reg:first=%s-still-recorded:kv=ok:"+
+					"sql=refused", first)
+			}
+			vc.Violation("dup_attempt_id", key,
 				fmt.Sprintf("duplicate attempt id: op %+v kv -> %s (%s), "+
 					"sql -> %s (%s)", *op, kres.short(), kres.Err,
 					qres.short(), qres.Err), run.witness("dupid"))
